@@ -56,7 +56,8 @@ def zoo_case(draw, entry=None, small=False):
         if e == "bdsk":
             m = draw(st.integers(1, 3))
             c["bd"] = {"R": [draw(logu(0.5, 3)) for _ in range(m)], "delta": [draw(logu(0.3, 2)) for _ in range(m)], "s": [draw(fl(0.1, 0.8)) for _ in range(m)],
-                       "rho": draw(st.sampled_from(["full", "last"])), "rhov": draw(fl(0.1, 0.9)), "offset": draw(logu(0.1, 2.0))}
+                       "rho": draw(st.sampled_from(["full", "last"])), "rhov": draw(fl(0.1, 0.9)), "offset": draw(logu(0.1, 2.0)),
+                       "constant": m == 1 and draw(st.booleans()), "survival": draw(st.booleans())}
         if e == "prior":
             c["gd"] = [draw(logu(0.3, 3.0)) for _ in range(4)]
     else:
@@ -117,8 +118,15 @@ def build_spec(c):
         m = len(bd["R"])
         rho = [0.0] * (m - 1) + [bd["rhov"]] if bd["rho"] == "full" else [bd["rhov"]]
         topo, names, dates, bl, h = phylo.tree_geometry(like)
-        spec.append({"id": "bdsk", "type": "BDSKModel", "tree_model": "tree", "R": tt.P("bd.R", bd["R"]), "delta": tt.P("bd.delta", bd["delta"]), "s": tt.P("bd.s", bd["s"]),
-                     "rho": tt.P("bd.rho", rho), "origin": tt.P("bd.origin", [bd["offset"]]), "origin_is_root_edge": True})
+        if bd.get("constant"):
+            # the constant-rate class: rates given directly, the origin is an absolute time above every root height
+            # any sample can take (increments are at most 5, a batched root height at most max tip + 5.1)
+            spec.append({"id": "bdsk", "type": "BirthDeathModel", "tree_model": "tree", "lambda": tt.P("bd.R", bd["R"]), "mu": tt.P("bd.delta", bd["delta"]),
+                         "psi": tt.P("bd.s", bd["s"]), "rho": tt.P("bd.rho", [bd["rhov"]]), "origin": tt.P("bd.origin", [origin_floor(like) + bd["offset"]]),
+                         "survival": bd.get("survival", True)})
+        else:
+            spec.append({"id": "bdsk", "type": "BDSKModel", "tree_model": "tree", "R": tt.P("bd.R", bd["R"]), "delta": tt.P("bd.delta", bd["delta"]), "s": tt.P("bd.s", bd["s"]),
+                         "rho": tt.P("bd.rho", rho), "origin": tt.P("bd.origin", [bd["offset"]]), "origin_is_root_edge": True})
         targets = ["bdsk"]
     if e == "prior":
         if like["tree"]["kind"] == "unrooted_tensor":
@@ -142,6 +150,8 @@ def build_spec(c):
             dom[lid] = "rho"
         elif lid == "growth":
             dom[lid] = "real"
+    if e == "bdsk" and c["bd"].get("constant"):
+        dom["bd.origin"] = "origin_abs"
     if "heights" in dom or like["tree"]["kind"] == "time":
         dom["heights"] = "heights"
     # only leaves the targets depend on
@@ -151,6 +161,11 @@ def build_spec(c):
                 "prior": ("gd.alpha", "gd.c", "gd.shape", "gd.rate", "bl", "rate", "clock.rates", "heights", "ratios", "root_height")}[e]
         dom = {k: v for k, v in dom.items() if k in keep}
     return spec, dom, targets
+
+
+def origin_floor(like):
+    n = len(like["tree"]["tip_heights"])
+    return max(like["tree"]["tip_heights"]) + 5.0 * (n - 1) + 6.0
 
 
 def slice_values(c, spec, dom, batched, s, base_values):
@@ -165,6 +180,8 @@ def slice_values(c, spec, dom, batched, s, base_values):
             like["tree"]["incs"] = [0.05 + 3.0 * x for x in (uu * 10)[: len(like["tree"]["incs"])]]
             topo, names, dates, bl, h = phylo.tree_geometry(like)
             out[lid] = [h[j] for j in range(topo.n, 2 * topo.n - 1)]
+        elif dom[lid] == "origin_abs":
+            out[lid] = [origin_floor(c["like"]) + 0.1 + 5.0 * uu[0]]
         elif dom[lid] == "root":
             like = c["like"]
             out[lid] = [max(like["tree"]["tip_heights"]) + 0.1 + 5.0 * uu[0]]
@@ -245,7 +262,7 @@ def classes(c):
     if e == "coal":
         return "coal:%s:%s" % (c["coal"], like["tree"]["kind"])
     if e == "bdsk":
-        return "bdsk:%s:m%d:%s" % (like["tree"]["kind"], len(c["bd"]["R"]), c["bd"]["rho"])
+        return "bdsk:%s:m%d:%s%s" % (like["tree"]["kind"], len(c["bd"]["R"]), c["bd"]["rho"], ":constant" if c["bd"].get("constant") else "")
     return "prior:%s" % like["tree"]["kind"]
 
 
